@@ -724,3 +724,24 @@ def node_size(nodes):
         seen.add(m.id)
         st.extend(m.args)
     return len(seen)
+
+
+def node_str(n, depth=4):
+    """compact rendering of a term for evidence samples"""
+    if n.op == "const":
+        v = n.val
+        return str(v.numerator) if v.denominator == 1 else ("%.6g" % float(v))
+    if n.op == "var":
+        return n.val
+    if n.op in ("inf", "nan"):
+        return ("-" if n.val == -1 else "") + n.op
+    if depth <= 0:
+        return "..."
+    a = [node_str(x, depth - 1) for x in n.args]
+    if n.op == "add":
+        return "(%s + %s)" % (a[0], a[1])
+    if n.op == "mul":
+        return "%s*%s" % (a[0], a[1])
+    if n.op == "div":
+        return "(%s / %s)" % (a[0], a[1])
+    return "%s(%s)" % (n.op, a[0])
